@@ -49,7 +49,9 @@ func c15Program(r *rand.Rand) gast.Program {
 		case 1:
 			return gast.IncDec{Name: name, Op: "--"}
 		default:
-			return gast.OpAssign{Name: name, Op: []string{"+", "-", "*", "/"}[r.Intn(4)], X: []gast.Expr{gast.IntLit{V: 1}, gast.IntLit{V: 2}, gast.FloatLit{V: 0.5}, id(pickV())}[r.Intn(4)]}
+			big := gast.IntLit{V: []int64{70000, 65535, 65536, 100000}[r.Intn(4)]}
+			return gast.OpAssign{Name: name, Op: []string{"+", "-", "*", "/"}[r.Intn(4)], X: []gast.Expr{gast.IntLit{V: 1}, gast.IntLit{V: 2}, gast.FloatLit{V: 0.5}, id(pickV()),
+				gast.Infix{Op: "+", L: big, R: big}, gast.Infix{Op: "*", L: big, R: gast.IntLit{V: 2}}, gast.Infix{Op: "-", L: gast.Infix{Op: "+", L: big, R: big}, R: gast.IntLit{V: 1}}, gast.Infix{Op: "+", L: gast.IntLit{V: 1}, R: big}}[r.Intn(8)]}
 		}
 	}
 	steps := 3 + r.Intn(8)
